@@ -157,6 +157,11 @@ func main() {
 			p2 := posOfCall(dbf, set.Body, "db.batchSet")
 			q1 := posOfCall(dw, bs.Body, "db.sendToWriteCh")
 			q2 := posOfCall(dw, bs.Body, "req.Wait")
+			if p2 == token.NoPos {
+				// setEntry may call sendToWriteCh + req.Wait itself instead of going through batchSet
+				p2 = posOfCall(dbf, set.Body, "db.sendToWriteCh")
+				q1, q2 = p2, posOfCall(dbf, set.Body, "req.Wait")
+			}
 			std = p1 != token.NoPos && p2 != token.NoPos && p1 < p2 &&
 				q1 != token.NoPos && q2 != token.NoPos && q1 < q2 &&
 				thrLoop.Pos() < sizeIf.Pos() && sizeIf.Pos() < enqIf.Pos()
@@ -294,6 +299,96 @@ func main() {
 			a = a + "; other completion sites: " + strings.Join(extra, ", ")
 		}
 		o.Set("q.ackAfterApply", a, b(good), shape, "true")
+	}
+
+	// ------------------------------------------------------------ applyRequests stops at the first failure
+	{
+		ar := dw.Func("DB.applyRequests")
+		shape, stops := false, false
+		if ar != nil {
+			ast.Inspect(ar.Body, func(x ast.Node) bool {
+				if s, ok := x.(*ast.IfStmt); ok && s.Init != nil && strings.Contains(dw.Src(s.Init), "db.writeToLSM(") {
+					shape = true
+					if len(s.Body.List) > 0 {
+						if _, isRet := s.Body.List[0].(*ast.ReturnStmt); isRet {
+							stops = true
+						}
+					}
+				}
+				return true
+			})
+		}
+		o.Set("q.applyStopsAtFailure", "db_write.go:applyRequests", b(stops), shape, "true")
+	}
+	// ------------------------------------------------------------ setEntry: release after a Wait() error
+	{
+		bad, shape := false, true
+		for _, name := range []string{"DB.setEntry", "DB.SetVersionedEntry"} {
+			fd := dbf.Func(name)
+			if fd == nil {
+				shape = false
+				continue
+			}
+			ast.Inspect(fd.Body, func(x ast.Node) bool {
+				if s, ok := x.(*ast.IfStmt); ok && s.Init != nil && strings.Contains(dbf.Src(s.Init), "db.batchSet(") &&
+					strings.Contains(dbf.Src(s.Body), ".DecrRef()") {
+					bad = true // batchSet's error may come from req.Wait(), after the request released the entries
+				}
+				return true
+			})
+		}
+		o.Set("q.waitErrKeepsRef", "db.go:setEntry/SetVersionedEntry", b(!bad), shape, "false")
+	}
+	// ------------------------------------------------------------ GetCF: what counts as deleted
+	{
+		gcf := dbf.Func("DB.GetCF")
+		std, shape := false, false
+		if gcf != nil {
+			ast.Inspect(gcf.Body, func(x ast.Node) bool {
+				if s, ok := x.(*ast.IfStmt); ok && strings.Contains(dbf.Src(s.Body), "utils.ErrKeyNotFound") {
+					shape = true
+					if dbf.Src(s.Cond) == "isDeletedOrExpired(entry.Meta, entry.ExpiresAt)" {
+						std = true
+					}
+				}
+				return true
+			})
+		}
+		o.Set("q.getDeletedStd", "db.go:GetCF", b(std), shape, "true")
+	}
+	// ------------------------------------------------------------ doCompact releases its reservation on every path
+	{
+		ex := o.Load("lsm/executor.go")
+		dc := ex.Func("levelManager.doCompact")
+		shape, good := false, false
+		if dc != nil {
+			src := ex.Src(dc.Body)
+			deferOK := strings.Contains(src, "defer func() { if cleanup { lm.compactState.Delete(cd.stateEntry()) } }()")
+			fills, armed := 0, 0
+			var walk func(list []ast.Stmt)
+			walk = func(list []ast.Stmt) {
+				for i, st := range list {
+					if is, ok := st.(*ast.IfStmt); ok {
+						c := ex.Src(is.Cond)
+						if c == "!lm.fillTablesL0(&cd)" || c == "!lm.fillTables(&cd)" {
+							fills++
+							if i+1 < len(list) && ex.Src(list[i+1]) == "cleanup = true" {
+								armed++
+							}
+						}
+						walk(is.Body.List)
+						if eb, ok := is.Else.(*ast.BlockStmt); ok {
+							walk(eb.List)
+						}
+					}
+				}
+			}
+			walk(dc.Body.List)
+			shardOK := strings.Contains(src, "lm.compactState.Delete(sub.stateEntry()) return err")
+			shape = fills == 2
+			good = deferOK && fills == 2 && armed == 2 && shardOK
+		}
+		o.Set("lsm.compactReleasesReservation", "lsm/executor.go:doCompact", b(good), shape, "true")
 	}
 
 	// ------------------------------------------------------------ Open: one worker
@@ -495,16 +590,19 @@ def cfg : AllCfg :=
   { q := { tooBigCountOp := .%s, tooBigSizeOp := .%s, batchCountOp := .%s, batchSizeOp := .%s,
            thrLoopChecksClosed := %s, closeReleasesThrottle := %s, singleWorker := %s, fifoPop := %s,
            ackAfterApply := %s, pathOrderStd := %s, closeOrderStd := %s, enqChecksClosed := %s,
-           enqFailKeepsRef := %s, getClosed := .%s },
+           enqFailKeepsRef := %s, getClosed := .%s,
+           applyStopsAtFailure := %s, waitErrKeepsRef := %s, getDeletedStd := %s },
     h := { exitOrder := .%s },
     w := { getGuard := %s },
-    p := { fitOp := .%s, guardOp := .%s, oversizeAlone := %s, sizeDefaulted := %s } }
+    p := { fitOp := .%s, guardOp := .%s, oversizeAlone := %s, sizeDefaulted := %s },
+    k := { releaseOnFail := %s } }
 
 end NoKV.Generated.Queue
 `, f["q.tooBigCountOp"], f["q.tooBigSizeOp"], f["q.batchCountOp"], f["q.batchSizeOp"],
 		f["q.thrLoopChecksClosed"], f["q.closeReleasesThrottle"], f["q.singleWorker"], f["q.fifoPop"],
 		f["q.ackAfterApply"], f["q.pathOrderStd"], f["q.closeOrderStd"], f["q.enqChecksClosed"],
-		f["q.enqFailKeepsRef"], f["q.getClosed"], f["q.exitCheckOrder"], f["q.getGuard"],
-		f["lsm.batchFitOp"], f["lsm.rotateGuardOp"], f["lsm.oversizeAlone"], f["lsm.sizeDefaulted"])
+		f["q.enqFailKeepsRef"], f["q.getClosed"],
+		f["q.applyStopsAtFailure"], f["q.waitErrKeepsRef"], f["q.getDeletedStd"], f["q.exitCheckOrder"], f["q.getGuard"],
+		f["lsm.batchFitOp"], f["lsm.rotateGuardOp"], f["lsm.oversizeAlone"], f["lsm.sizeDefaulted"], f["lsm.compactReleasesReservation"])
 	o.Write(*jsonOut, *leanOut, lean)
 }
